@@ -335,6 +335,34 @@ def outcome_of(call):
         return ('raises', type(e).__name__, str(e))
 
 
+def library_exceptions(index):
+    """python stand-ins for the exception classes of exceptions.py with
+    the base classes the source gives them (so that `except ValueError`
+    catches what the library's class hierarchy says it catches)"""
+    import builtins
+    em = index.need('calmjs.parse.exceptions')
+    out = {}
+    for name, node in em.classes.items():
+        bases = []
+        for b in node.bases:
+            bn = ast.unparse(b).split('.')[-1]
+            if bn in out:
+                bases.append(out[bn])
+            elif isinstance(getattr(builtins, bn, None), type) and \
+                    issubclass(getattr(builtins, bn), BaseException):
+                bases.append(getattr(builtins, bn))
+        if not bases:
+            bases = [Exception]
+        try:
+            out[name] = type(name, tuple(bases), {})
+        except TypeError as e:
+            raise AnalysisError('exceptions.%s: %s' % (name, e))
+    for need in ('ECMASyntaxError', 'ECMARegexSyntaxError'):
+        if need not in out:
+            raise AnalysisError('exceptions.%s vanished' % need)
+    return out
+
+
 def r181(report, m):
     """io.read evaluated from its source for every stream arrangement and
     every point at which a step can fail"""
@@ -344,8 +372,10 @@ def r181(report, m):
                      '(fault-injection table)', floor=8)
     read = need_function(m, 'read')
     faults = ('none', 'factory fails', 'read fails', 'syntax error',
+              'regex syntax error',
               'parser fails', 'factory interrupted', 'read interrupted',
               'parser interrupted')
+    excs = library_exceptions(m.index)
     for arrangement in ('factory', 'open stream'):
         for fault in faults:
             if fault.startswith('factory ') and arrangement != 'factory':
@@ -363,7 +393,9 @@ def r181(report, m):
 
             def parser(text, fault=fault):
                 if fault == 'syntax error':
-                    raise ECMASyntaxError('bad token')
+                    raise excs['ECMASyntaxError']('bad token')
+                if fault == 'regex syntax error':
+                    raise excs['ECMARegexSyntaxError']('bad token')
                 boom('parser', fault)
                 return Obj('ES5Program', sourcepath=None)
             stream = ('pyfunc', factory) if arrangement == 'factory' \
@@ -384,8 +416,9 @@ def r181(report, m):
                     problems.append('does not return the tree with '
                                     'sourcepath = stream name (%r)' % (
                                         out,))
-            elif fault == 'syntax error':
-                if out[0] != 'raises' or out[1] != 'ECMASyntaxError' or \
+            elif fault in ('syntax error', 'regex syntax error'):
+                if out[0] != 'raises' or out[1] not in (
+                        'ECMASyntaxError', 'ECMARegexSyntaxError') or \
                         'bad token' not in str(out[2]) or \
                         'src.js' not in str(out[2]):
                     problems.append('the syntax error is not re-raised '
@@ -416,12 +449,16 @@ def r182(report, m):
             arrangements.append((out_kind, map_kind))
     steps = ('unparser', 'output factory', 'sourcemap.write',
              'map factory', 'write_sourcemap')
-    faults = ('none',) + tuple(s_ + ' fails' for s_ in steps) + tuple(
+    faults = ('none', 'none, nothing mapped') + tuple(
+        s_ + ' fails' for s_ in steps) + tuple(
         s_ + ' interrupted' for s_ in steps)
     for out_kind, map_kind in arrangements:
         for fault0 in faults:
             # expectations depend on the step only, not on the kind
             fault = fault0.replace(' interrupted', ' fails')
+            unmapped = fault == 'none, nothing mapped'
+            if unmapped:
+                fault = 'none'
             if fault == 'output factory fails' and out_kind != 'factory':
                 continue
             if fault == 'map factory fails' and map_kind != 'factory':
@@ -455,9 +492,15 @@ def r182(report, m):
                 boom('unparser', fault)
                 return list(chunks)
 
-            def sm_write(cs, stream, normalize=True, fault=fault0, log=log):
+            def sm_write(cs, stream, normalize=True, fault=fault0, log=log,
+                         unmapped=unmapped):
                 log.append(('write', list(cs), stream))
                 boom('sourcemap.write', fault)
+                if unmapped:
+                    # what sourcemap.write yields for a text without any
+                    # positioned fragment (an empty or comment-only
+                    # program): the map still has to be written
+                    return ([[]], [], [])
                 return (['m'], ['s'], ['n'])
 
             def sm_write_map(mappings, sources, names, o, s_, fault=fault0,
@@ -507,7 +550,9 @@ def r182(report, m):
                     map_kind != 'none':
                 w = [x for x in log if x[0] == 'write_sourcemap']
                 want_map = out_obj if map_kind == 'same' else map_obj
-                if len(w) != 1 or w[0][1:4] != (['m'], ['s'], ['n']) or \
+                if len(w) != 1 or w[0][1:4] != ((['m'], ['s'], ['n'])
+                                                if not unmapped else
+                                                ([[]], [], [])) or \
                         w[0][4] is not out_obj or w[0][5] is not want_map:
                     problems.append('write_sourcemap does not receive the '
                                     'mappings and the two streams (%r)'
